@@ -152,6 +152,10 @@ func otherCases() []crashCase {
 			cs = append(cs, crashCase{Kind: "composite", Where: w, Comp: c})
 		}
 	}
+	// what the callback itself delivers at reload time: nil, an error
+	for _, c := range []string{"nil", "err"} {
+		cs = append(cs, crashCase{Kind: "callback", Where: "reload", Routes: ok, Addr: "free", Comp: c})
+	}
 	return cs
 }
 
@@ -465,7 +469,17 @@ func crashChild() {
 		}
 		cur.Store(b)
 	}
-	runner, err := httpserver.NewRunner(httpserver.WithConfigCallback(func() (*httpserver.Config, error) { return cur.Load(), nil }))
+	var cbMode atomic.Value // "", "nil", "err"
+	cbMode.Store("")
+	runner, err := httpserver.NewRunner(httpserver.WithConfigCallback(func() (*httpserver.Config, error) {
+		switch cbMode.Load().(string) {
+		case "nil":
+			return nil, nil
+		case "err":
+			return nil, fmt.Errorf("scripted callback failure")
+		}
+		return cur.Load(), nil
+	}))
 	if err != nil {
 		outcome("returned-error NewRunner: %v", err)
 		return
@@ -505,6 +519,9 @@ func crashChild() {
 			os.Exit(3)
 		}
 		cur.Store(cfg)
+		if c.Kind == "callback" {
+			cbMode.Store(c.Comp)
+		}
 	}
 	runner.Reload(context.Background()) // construct: unchanged config; reload: the case's config
 	st2 := runner.GetState()
